@@ -45,7 +45,7 @@ def msets(table):
     return [sorted(x for x in r if x != INT_FILL) for r in table]
 
 
-def judge_grid(ctx, g, inp, tag, key):
+def judge_grid(ctx, g, inp, tag, key, prefix="C03/"):
     d = ctx.driver
     t = [[int(x) for x in r] for r in g.face_node_connectivity.values]
     FE = [[int(x) for x in r] for r in g.face_edge_connectivity.values]
@@ -55,7 +55,7 @@ def judge_grid(ctx, g, inp, tag, key):
         o = observe(g)
     except Exception as e:
         ctx.case(key, sample=inp)
-        ctx.fail(f"C03/raises/{type(e).__name__}", f"incidence construction raises {type(e).__name__}: {e}", inp)
+        ctx.fail(f"{prefix}raises/{type(e).__name__}", f"incidence construction raises {type(e).__name__}: {e}", inp)
         return
     enc = enc_in(n, w, t, FE, N, n_edge)
     pre = d.ask("C03.pre", enc)
@@ -85,7 +85,7 @@ def judge_grid(ctx, g, inp, tag, key):
         ctx.hit("lean-spec-evaluated")
         if verdict != "ok":
             clauses = verdict.split(" ", 1)[1].split(",")
-            ctx.fail("C03/" + "+".join(clauses), "incidence tables are not mutual transposes: " + verdict, inp, o, model, clauses)
+            ctx.fail(prefix + "+".join(clauses), "incidence tables are not mutual transposes: " + verdict, inp, o, model, clauses)
             return
     if o["n_max_node_faces"] != len(o["nodeFace"][0]):
         ctx.fail("C03/n_max_node_faces", "n_max_node_faces differs from the table width", inp, o, model, ["n_max_node_faces"])
@@ -104,6 +104,63 @@ def judge(ctx, m, tag):
     inp = dict(mesh=m.describe(), table=m.rows(), tag=tag)
     g = meshes.to_grid(m, ux)
     judge_grid(ctx, g, inp, tag, (tag, m.rows()))
+
+
+PRE_ATTRS = ["edge_node_connectivity", "face_edge_connectivity", "edge_face_connectivity", "node_face_connectivity",
+             "face_face_connectivity", "hole_edge_indices", "edge_face_distances"]
+
+
+def draw_derivation(rng, m):
+    """what is read on the parent first, then 1-2 selections (faces in ANY order, non-adjacent, single; or by
+    nodes / edges) and possibly a copy(): the tables of the derived grid must be transposes of ITS face table"""
+    pre = rng.sample(PRE_ATTRS, rng.randint(0, 4))
+    steps, nf = [], m.n_face
+    for i in range(rng.choice([1, 1, 2])):
+        if nf < 1:
+            break
+        if i == 0 and rng.random() < 0.25:
+            kind = rng.choice(["n_node", "n_edge"])
+            hi = m.n_node if kind == "n_node" else max(1, m.n_face)  # an edge index below n_face always exists? no: clipped at run time
+            steps.append([kind, rng.sample(range(hi), rng.randint(1, min(hi, 4)))])
+            break
+        k = rng.randint(1, max(1, min(nf, 12)))
+        sel = rng.sample(range(nf), k)
+        if rng.random() < 0.3:
+            sel.sort()
+        steps.append(["n_face", sel])
+        nf = k
+    if rng.random() < 0.2:
+        steps.append(["copy", []])
+    return dict(pre=pre, steps=steps)
+
+
+def derive(g, der):
+    for name in der["pre"]:
+        getattr(g, name)
+    for kind, sel in der["steps"]:
+        if kind == "copy":
+            g = g.copy()
+        else:
+            hi = {"n_face": g.n_face, "n_node": g.n_node, "n_edge": g.n_edge}[kind]
+            g = g.isel(**{kind: [int(x) % hi for x in sel]})
+    return g
+
+
+def judge_derived(ctx, m, tag, der=None):
+    import uxarray as ux
+
+    der = der or draw_derivation(ctx.rng, m)
+    inp = dict(mesh=m.describe(), table=m.rows(), tag=tag, derivation=der)
+    key = (tag, m.rows(), str(der))
+    try:
+        g = derive(meshes.to_grid(m, ux), der)
+    except Exception as e:
+        ctx.case(key, sample=inp)
+        ctx.fail(f"C03/derived/raises/{type(e).__name__}", f"deriving the grid raises {type(e).__name__}: {e}", inp)
+        return
+    ctx.hit("derived:" + "+".join(k for k, _ in der["steps"]))
+    ctx.hit("derived:parent-read-first" if der["pre"] else "derived:fresh-parent")
+    judge_grid(ctx, g, inp, tag, key, prefix="C03/derived/")
 
 
 def sample_files(ctx):
@@ -186,7 +243,8 @@ def small_scope(ctx):
 def run(ctx):
     ctx.rule = ("meshes from harness/meshes.zoo (closed and partial, isolated faces, holes, valence 3..8, mixed sizes, random "
                 "renumbering; archipelagos interleaving faces with and without neighbours) + random small tables (2..5 faces "
-                "over <= 8 nodes) filtered by the Lean precondition Incidence.Pre; MPAS sample with file-supplied tables; distinct = "
+                "over <= 8 nodes) filtered by the Lean precondition Incidence.Pre; grids DERIVED from them (random reads on the parent, then "
+                "isel by faces in any order / nodes / edges, chains, copy()) judged against their own face table; MPAS sample with file-supplied tables; distinct = "
                 "distinct face-node table; non-trivial = more than one face")
     ctx.assumptions = ["dict/list/np.pad semantics of the Python loops are tied to the model only by this differential run",
                        "face_edge_connectivity / n_nodes_per_face are taken from the implementation (their correctness is C02)"]
@@ -198,6 +256,8 @@ def run(ctx):
                 mo = meshes.with_orphans(m, ctx.rng)
                 ctx.hit("orphan-nodes@" + mo.kind.rsplit("@", 1)[1])
                 judge(ctx, mo, mo.kind)
+            if m.n_face <= 200 and ctx.rng.random() < 0.5:
+                judge_derived(ctx, m, m.kind + "+derived")
     sample_files(ctx)
 
 
@@ -211,4 +271,7 @@ def replay(ctx, rp):
     n = max(max(f) for f in faces) + 1
     xyz = np.array([meshes._ll(37.0 * i - 170, 11.0 * (i % 14) - 70) for i in range(n)])
     m = meshes.AMesh(faces, xyz, inp["mesh"].get("closed", False), "replay")
+    if inp.get("derivation"):
+        judge_derived(ctx, m, "replay", inp["derivation"])
+        return
     judge(ctx, m, "replay")
